@@ -328,7 +328,7 @@ class MDD:
         """Recursively remove nodes with zero reference count."""
         if roots is None:
             roots = self._ref
-        unused = {u for u in roots if not self.ref(u)}
+        unused = {abs(u) for u in roots if not self.ref(u)}
         # keep terminal
         if 1 in unused:
             unused.remove(1)
